@@ -44,6 +44,38 @@ def _collect_binds(it, out):
             _collect_binds(x, out)
 
 
+def derived_lookalikes(g):
+    out = []
+
+    def esc(name):
+        return "".join(c if c.isalnum() else ("__" if c == "_" else "_%x" % ord(c)) for c in name)
+
+    def esc1(name):
+        return "".join(c if (c.isalnum() or c == "_") else "_%x" % ord(c) for c in name)
+
+    def visit(s):
+        if s.k == "rep":
+            visit(s.inner)
+            if s.inner.k == "n":
+                t = s.inner.name + s.op
+                out.extend([esc(t), esc1(t), s.inner.name + {"+": "_plus", "*": "_star", "?": "_opt"}[s.op]])
+        elif s.k == "grp":
+            for it in s.items:
+                visit(it.sym)
+        elif s.k == "mac":
+            t = gmodel.sym_text(s)
+            if all(a.k == "n" for a in s.args):
+                out.extend([esc(t), esc1(t)])
+            for a in s.args:
+                visit(a)
+    for nt in g.nts:
+        for a in nt.alts:
+            for it in a.items:
+                visit(it.sym)
+    import re as _re
+    return [x for x in dict.fromkeys(out) if _re.match(r"^[A-Za-z_][A-Za-z0-9_]*$", x)]
+
+
 def rename(g, ntmap, bmap):
     g2 = copy.deepcopy(g)
 
@@ -140,12 +172,38 @@ def run(tier, seed):
             cfg = gmodel.desugar(g)
         except Exception:
             continue
+        forced = None
+        if rng.random() < 0.4:
+            # make sure some nonterminal is used under `+`/`*`/`?` and another one gets renamed to the
+            # escaped spelling of that derived name
+            cands = [(nt, a, i) for nt in g.nts for a in nt.alts for i, it in enumerate(a.items) if it.sym.k == "n" and it.sym.name != nt.name and a.action == "named"]
+            others = [nt.name for nt in g.nts if not nt.params]
+            if cands and len(others) >= 2:
+                nt_, a_, i_ = rng.choice(cands)
+                op = rng.choice("+*?")
+                inner = a_.items[i_].sym
+                a_.items[i_].sym = gmodel.Rep(inner, op)
+                victim = rng.choice([n_ for n_ in others if n_ != inner.name] or others)
+                spelled = "".join(c if (c.isalnum() or c == "_") else "_%x" % ord(c) for c in inner.name + op)
+                forced = (victim, spelled)
+                try:
+                    cfg = gmodel.desugar(g)
+                except Exception:
+                    continue
         nts, binds = names_of(g)
         k_nt = rng.randint(1, len(nts))
         pool = list(NT_POOL)
         rng.shuffle(pool)
+        # look-alikes of the names LALRPOP derives for `X+`, `X*`, `X?` and macro instantiations
+        # (escaped spellings used for enum variants: non-alphanumerics as _<hex>)
+        derived = derived_lookalikes(g)
+        rng.shuffle(derived)
+        pool = derived[:rng.choice([0, 1, 2, 3])] + pool
         pool = [p for p in pool if p not in nts]
         ntmap = dict(zip(rng.sample(nts, k_nt), pool))
+        if forced and forced[1] not in nts:
+            ntmap = {k: v for k, v in ntmap.items() if v != forced[1]}
+            ntmap[forced[0]] = forced[1]
         bpool = [b for b in BIND_POOL if b not in binds]
         rng.shuffle(bpool)
         kb = rng.randint(0, min(len(binds), len(bpool)))
